@@ -33,25 +33,28 @@ class InvertedBooleanCheckTransformer(LibcstResultTransformer):
     def report_new_comparison(
         self, original_node: cst.UnaryOperation, comparison: cst.Comparison
     ) -> cst.BaseExpression:
-        if len(comparison.comparisons) == 1 and isinstance(
-            comparison.comparisons[0].operator, cst.Is
-        ):
+        new_node = self._negated(comparison)
+        self.report_change(original_node)
+        return new_node
+
+    def _negated(self, comparison: cst.Comparison) -> cst.BaseExpression:
+        """The expression that stands for `not <comparison>` (a single comparison)."""
+        if isinstance(comparison.comparisons[0].operator, cst.Is):
             # Handle 'not status is True' -> 'not status'
             if comparison.comparisons[0].comparator.value == "True":
-                self.report_change(original_node)
-                return cst.UnaryOperation(
-                    operator=cst.Not(), expression=comparison.left
-                )
+                left = comparison.left
+                # 'not (a == b) is True' -> 'a != b': 'not (a == b)' would be flipped by the next run
+                if isinstance(left, cst.Comparison) and len(left.comparisons) == 1:
+                    return self._negated(left)
+                return cst.UnaryOperation(operator=cst.Not(), expression=left)
 
             # Handle 'not status is False' -> 'status'
             if comparison.comparisons[0].comparator.value == "False":
-                self.report_change(original_node)
                 return comparison.left
 
-        inverted_comparisons = self._invert_comparisons(comparison)
-
-        self.report_change(original_node)
-        return cst.Comparison(left=comparison.left, comparisons=inverted_comparisons)
+        return cst.Comparison(
+            left=comparison.left, comparisons=self._invert_comparisons(comparison)
+        )
 
     def _invert_comparisons(
         self, comparison: cst.Comparison
